@@ -852,8 +852,8 @@ class Progress(JupyterMixin, RenderHook):
             completed (int, optional): Number of steps completed. Defaults to 0.
             **fields (str): Additional data fields required for rendering.
         """
-        current_time = self.get_time()
         with self._lock:
+            current_time = self.get_time()
             task = self._tasks[task_id]
             task._reset()
             task.start_time = current_time if start else None
@@ -876,8 +876,8 @@ class Progress(JupyterMixin, RenderHook):
             task_id (TaskID): ID of task.
             advance (float): Number of steps to advance. Default is 1.
         """
-        current_time = self.get_time()
         with self._lock:
+            current_time = self.get_time()
             task = self._tasks[task_id]
             completed_start = task.completed
             task.completed += advance
